@@ -673,33 +673,41 @@ func sequence(c Cell) (*ev.Failure, bool) {
 		return exporter.InitExportingProcess(exporter.ExporterInput{CollectorAddress: col.cp.GetAddress().String(), CollectorProtocol: "tcp", ObservationDomainID: domain,
 			TLSClientConfig: cfg, CheckConnInterval: 3 * time.Millisecond})
 	}
-	good, err := mk(999, caGood.CertPEM, clientCerts["trusted"])
-	if err != nil {
-		return ev.Failf("harness: the correctly configured exporter cannot connect: %v", err), false
-	}
-	sendTemplate(good)
-	if !col.waitDelivered(999, 10*time.Second) {
-		good.CloseConnToCollector()
-		return nil, false
-	}
-	time.Sleep(30 * time.Millisecond) // several connection checks read from the session (tickets arrive)
-	good.CloseConnToCollector()
-	var bad *exporter.ExportingProcess
-	switch c.Plain {
-	case "second_exporter_other_ca":
-		bad, err = mk(4242, caOther.CertPEM, clientCerts["trusted"])
-	case "second_exporter_without_client_cert":
-		bad, err = mk(4242, caGood.CertPEM, nil)
-	}
-	if err == nil {
-		sendTemplate(bad)
-		got := col.waitDelivered(4242, 700*time.Millisecond)
-		bad.CloseConnToCollector()
-		if c.Plain == "second_exporter_other_ca" {
-			return ev.Failf("after a correctly configured exporter had completed a session, a second exporter in the same process whose CA does not cover the collector's certificate completed one too (message delivered: %v)", got), true
+	// The cached state a second exporter could wrongly profit from (a TLS 1.3 session ticket) only
+	// reaches the first exporter when one of its periodic connection checks reads from the socket,
+	// and such a read has a 1 ms deadline: on a busy machine several checks in a row can time out
+	// before reading. The pair is therefore repeated with longer and longer lifetimes of the first
+	// exporter; any repetition in which the second exporter completes a session is a failure.
+	for i, life := range []time.Duration{30 * time.Millisecond, 120 * time.Millisecond, 400 * time.Millisecond, 900 * time.Millisecond} {
+		goodDomain, badDomain := uint32(999+i), uint32(4242+i)
+		good, err := mk(goodDomain, caGood.CertPEM, clientCerts["trusted"])
+		if err != nil {
+			return ev.Failf("harness: the correctly configured exporter cannot connect: %v", err), false
 		}
-		if got {
-			return ev.Failf("after an exporter with a valid client certificate had completed a session, the collector delivered a message from a second exporter that presented no certificate"), true
+		sendTemplate(good)
+		if !col.waitDelivered(goodDomain, 10*time.Second) {
+			good.CloseConnToCollector()
+			return nil, false
+		}
+		time.Sleep(life) // several connection checks read from the session (tickets arrive)
+		good.CloseConnToCollector()
+		var bad *exporter.ExportingProcess
+		switch c.Plain {
+		case "second_exporter_other_ca":
+			bad, err = mk(badDomain, caOther.CertPEM, clientCerts["trusted"])
+		case "second_exporter_without_client_cert":
+			bad, err = mk(badDomain, caGood.CertPEM, nil)
+		}
+		if err == nil {
+			sendTemplate(bad)
+			got := col.waitDelivered(badDomain, 700*time.Millisecond)
+			bad.CloseConnToCollector()
+			if c.Plain == "second_exporter_other_ca" {
+				return ev.Failf("after a correctly configured exporter had completed a session, a second exporter in the same process whose CA does not cover the collector's certificate completed one too (message delivered: %v)", got), true
+			}
+			if got {
+				return ev.Failf("after an exporter with a valid client certificate had completed a session, the collector delivered a message from a second exporter that presented no certificate"), true
+			}
 		}
 	}
 	return nil, false
